@@ -171,7 +171,13 @@ def generate():
     try:
         vals["MAX_MSG_SIZE"] = define(utils, "MAX_MSG_SIZE")
         lines.append("Definition MAX_MSG_SIZE : Z := %d." % vals["MAX_MSG_SIZE"])
-        m = re.search(r"static\s+void\s+print_msg\s*\(.*?\n\}", utils, re.S)
+        # the message printer is found by what it does (the static function that declares
+        # msg_buf[]), not by its name: a rename must not break the tie
+        m = None
+        for fm in re.finditer(r"static\s+void\s+(\w+)\s*\([^)]*\)\s*\{.*?\n\}", utils, re.S):
+            if re.search(r"\bmsg_buf\s*\[", fm.group(0)):
+                m = fm
+                break
         if not m:
             raise Untranslatable("print_msg not found")
         body = m.group(0)
